@@ -17,7 +17,7 @@ fn leaf(script: &[Step]) -> ChildSpec {
 }
 
 fn comb_case(family: Family, container: Container, children: Vec<ChildSpec>) -> Case {
-    Case { root: CombSpec { family, container, children }, schedule: vec![], drain: vec![0; 8], no_drain: false, fair_polls: 0, post_polls: 0 }
+    Case { root: CombSpec { family, container, children, variant: 0 }, schedule: vec![], drain: vec![0; 8], no_drain: false, fair_polls: 0, post_polls: 0 }
 }
 
 fn comb(prop: &'static str, name: &str, case: Case) -> Regress {
@@ -99,8 +99,6 @@ pub fn cases(prop: &str, tier: Tier) -> Vec<Regress> {
                 v.push(comb("C17", "vec-65537-inputs-131100-polls", long(Container::Vec, 65_537, 131_100)));
             }
         }
-        #[cfg(feature = "has-alloc")]
-        "C08" if false => {}
         _ => {}
     }
     #[cfg(feature = "has-alloc")]
